@@ -39,7 +39,7 @@ package main
 // thereby publish a replacement message (so lastID may grow), but never lowers lastID or renames the topic.
 //@ func (t *Topic) broadcastToSessions(msg *ServerComMessage)
 //@   trusted
-//@   modifies *
+//@   modifies inferred
 //@   ensures t.lastID >= old(t.lastID) && t.name == old(t.name) && t.cat == old(t.cat)
 //@   ensures rowMax[t.name] <= t.lastID || rowMax[t.name] == old(rowMax[t.name])
 //@   ensures forall u types.Uid :: old(u in t.perUser) ==> (u in t.perUser) && t.perUser[u].readID >= old(t.perUser[u].readID) && t.perUser[u].recvID >= old(t.perUser[u].recvID) && (old(marksOK(t, u)) ==> marksOK(t, u))
@@ -54,12 +54,12 @@ package main
 //@   ensures [C01] inv_seq:      rowMax[t.name] <= t.lastID
 //@   ensures [C01] failed_keeps: err != nil ==> t.lastID == old(t.lastID) && rowMax[t.name] == old(rowMax[t.name])
 //@   ensures [C01] advanced:     err == nil ==> t.lastID >= old(t.lastID) + 1
-//@   ensures [C01] same_topic:   t.name == old(t.name)
+//@   ensures [C01] same_topic:   t.name == old(t.name) && t.cat == old(t.cat)
 //@   assert at call Save [C03] writer: t.cat == types.TopicCatSys || (effMode(t, asUid) & types.ModeWrite) != 0
 //@   ensures [C03] denied: old(t.cat != types.TopicCatSys && (effMode(t, asUid) & types.ModeWrite) == 0) ==> err != nil && t.lastID == old(t.lastID) && rowMax == old(rowMax) && hwm == old(hwm) && outCount[msg.sess] == old(outCount[msg.sess]) + 1 && (forall s int :: s != ref(msg.sess) ==> outCount[s] == old(outCount[s]))
 //@   assert at call Save [C01] seq_is_next: $1.SeqId == old(t.lastID) + 1 && t.lastID == old(t.lastID) && $1.Topic == t.name
 //@   assert at call broadcastToSessions [C01] data_seq: t.lastID == old(t.lastID) + 1 && $1.Data != nil && $1.Data.SeqId == t.lastID
-//@   modifies *
+//@   modifies inferred
 
 // ---------------------------------------------------------------------------------------------
 // C05: the notification path. Each component's delta is computed from that component's own old and new value,
@@ -69,14 +69,14 @@ package main
 //@   requires [C05] t != nil
 //@   assert at call Delta#1 [C05] want_delta:  ($0 == oldWant && $1 == newWant) || ($0 == oldGiven && $1 == newGiven && !(newWant != types.ModeInvalid && newWant != types.ModeUnset && oldWant != types.ModeInvalid && oldWant != types.ModeUnset && oldWant != types.ModeNone))
 //@   assert at call Delta#2 [C05] given_delta: $0 == oldGiven && $1 == newGiven
-//@   modifies *
+//@   modifies inferred
 
 //@ func (t *Topic) updateAcsFromPresMsg(pres *MsgServerPres)
 //@   requires [C05] t != nil && pres != nil && pres.Acs != nil
 //@   assert at call ApplyMutation#1 [C05] want_from_want:   $1 == pres.Acs.Want
 //@   assert at call ApplyMutation#2 [C05] given_from_given: $1 == pres.Acs.Given
 //@   ensures [C05] only_this_user: forall u types.Uid :: u != types.ParseUserId(pres.Src) ==> (u in t.perUser) == old(u in t.perUser) && t.perUser[u].modeWant == old(t.perUser[u].modeWant) && t.perUser[u].modeGiven == old(t.perUser[u].modeGiven)
-//@   modifies *
+//@   modifies inferred
 
 // ---------------------------------------------------------------------------------------------
 // C04: deleting messages
@@ -92,7 +92,7 @@ package main
 //@   assert at call DeleteList [C04] soft_for_self: $3 == asUid ==> !(old(msg.Del.Hard) && (effMode(t, asUid) & types.ModeDelete) != 0)
 //@   ensures [C04] delid_next: err == nil ==> t.delID == old(t.delID) + 1
 //@   ensures [C04] delid_kept: err != nil ==> t.delID == old(t.delID)
-//@   modifies *
+//@   modifies inferred
 //@   loop 1
 //@     invariant wf: forall k int :: 0 <= k && k < len(ranges) ==> ranges[k].Low >= 0 && (ranges[k].Hi == 0 || ranges[k].Hi > ranges[k].Low)
 
@@ -101,11 +101,11 @@ package main
 //@ func initTopicGrp(t *Topic) (err error)
 //@   requires [C01] t != nil && rowMax[t.name] <= hwm[t.name]
 //@   ensures [C01] lastID_restored: err == nil ==> t.lastID == hwm[t.name] && rowMax[t.name] <= t.lastID
-//@   modifies *
+//@   modifies inferred
 //@ func initTopicSys(t *Topic) (err error)
 //@   requires [C01] t != nil && rowMax[t.name] <= hwm[t.name]
 //@   ensures [C01] lastID_restored: err == nil ==> t.lastID == hwm[t.name] && rowMax[t.name] <= t.lastID
-//@   modifies *
+//@   modifies inferred
 
 // ---------------------------------------------------------------------------------------------
 // C03: only effective writers can add a message
@@ -116,18 +116,42 @@ package main
 //@   requires [C03] t != nil && msg != nil && msg.sess != nil && msg.Pub != nil
 //@   requires [C03] rowMax[t.name] <= t.lastID
 //@   assert at call saveAndBroadcastMessage [C03] live: !topicBlocked(t)
+//@   assert at call saveAndBroadcastMessage [C15] call_gate: isCall ==> len(globals.iceServers) != 0 && t.cat == types.TopicCatP2P && t.currentCall == nil
+//@   assert at call handleCallInvite [C15] invite_is_call: isCall && t.cat == types.TopicCatP2P
+//@   ensures [C15] busy_no_trace: old(!topicBlocked(t) && msg.Pub.Head != nil && msg.Pub.Head["webrtc"] != nil && len(globals.iceServers) != 0 && t.cat == types.TopicCatP2P && t.currentCall != nil) ==> t.lastID == old(t.lastID) && t.currentCall == old(t.currentCall) && rowMax == old(rowMax) && outCount[msg.sess] == old(outCount[msg.sess]) + 1
 //@   ensures [C03] blocked_no_effect: old(topicBlocked(t)) ==> t.lastID == old(t.lastID) && rowMax == old(rowMax) && hwm == old(hwm)
 //@   ensures [C03] blocked_one_reply: old(topicBlocked(t)) ==> outCount[msg.sess] == old(outCount[msg.sess]) + 1 && (forall s int :: s != ref(msg.sess) ==> outCount[s] == old(outCount[s]))
-//@   modifies *
+//@   modifies inferred
 
 // Call events can publish the replacement message of a call (the originator's marks then jump to the new message);
-// they never lower a mark or lastID. (Assumed here; the call functions have their own contracts under C15.)
+// they never lower a mark or lastID. The [assumed] clauses are relied on by handleNoteBroadcast and not verified here.
 //@ func (t *Topic) handleCallEvent(msg *ClientComMessage)
-//@   trusted
-//@   modifies *
-//@   ensures t.lastID >= old(t.lastID) && t.name == old(t.name) && t.cat == old(t.cat)
-//@   ensures forall u types.Uid :: old(u in t.perUser) ==> (u in t.perUser) && t.perUser[u].readID >= old(t.perUser[u].readID) && t.perUser[u].recvID >= old(t.perUser[u].recvID) && (old(marksOK(t, u)) ==> marksOK(t, u))
-//@   ensures forall u types.Uid :: (u in t.perUser) && !old(u in t.perUser) ==> marksOK(t, u)
+//@   requires [C15] t != nil && msg != nil && msg.Note != nil && msg.sess != nil && rowMax[t.name] <= t.lastID
+//@   modifies inferred
+//@   ensures [assumed] t.lastID >= old(t.lastID) && t.name == old(t.name) && t.cat == old(t.cat)
+//@   ensures [assumed] forall u types.Uid :: old(u in t.perUser) ==> (u in t.perUser) && t.perUser[u].readID >= old(t.perUser[u].readID) && t.perUser[u].recvID >= old(t.perUser[u].recvID) && (old(marksOK(t, u)) ==> marksOK(t, u))
+//@   ensures [assumed] forall u types.Uid :: (u in t.perUser) && !old(u in t.perUser) ==> marksOK(t, u)
+//@   ensures [C15] no_call_ignored: old(t.currentCall == nil) ==> t.currentCall == nil && t.lastID == old(t.lastID) && (forall s int :: outCount[s] == old(outCount[s]))
+//@   ensures [C15] stale_ignored:   old(t.currentCall != nil && t.currentCall.seq != msg.Note.SeqId) ==> t.currentCall == old(t.currentCall) && t.lastID == old(t.lastID) && (forall s int :: outCount[s] == old(outCount[s]))
+//@   assert at call saveAndBroadcastMessage [C15] accept_from_callee: len(t.currentCall.parties) == 1 && originatorUid != asUid && originator.sid != msg.sess.sid && $2 == originatorUid
+//@   assert at call maybeEndCallInProgress [C15] hangup_by_party: len(t.currentCall.parties) == 2 ==> (msg.sess.sid in t.currentCall.parties)
+
+// Ending a call: whatever happens while the replacement message is written, the call is over afterwards.
+//@ func (t *Topic) maybeEndCallInProgress(from string, msg *ClientComMessage, callDidTimeout bool)
+//@   requires [C15] t != nil && msg != nil && msg.sess != nil && rowMax[t.name] <= t.lastID
+//@   modifies inferred
+//@   ensures [C15] ended: t.currentCall == nil
+//@   ensures [C15] idle_noop: old(t.currentCall == nil) ==> t.lastID == old(t.lastID) && (forall s int :: outCount[s] == old(outCount[s]))
+//@ func (t *Topic) terminateCallInProgress(callDidTimeout bool)
+//@   requires [C15] t != nil && rowMax[t.name] <= t.lastID
+//@   modifies inferred
+//@   ensures [C15] ended: t.currentCall == nil
+
+// Starting a call records exactly the inviting session as originator and the invitation's id.
+//@ func (t *Topic) handleCallInvite(msg *ClientComMessage, asUid types.Uid)
+//@   requires [C15] t != nil && msg != nil && msg.sess != nil && msg.Pub != nil
+//@   modifies inferred
+//@   ensures [C15] started: t.currentCall != nil && t.currentCall.seq == old(t.lastID) && len(t.currentCall.parties) == 1 && (old(msg.sess.sid) in t.currentCall.parties) && t.currentCall.parties[old(msg.sess.sid)].isOriginator && t.currentCall.parties[old(msg.sess.sid)].uid == asUid
 
 // ---------------------------------------------------------------------------------------------
 // C09: read / received marks
@@ -135,7 +159,7 @@ package main
 //@ spec func marksOK(t *Topic, u types.Uid) bool { return 0 <= t.perUser[u].readID && t.perUser[u].readID <= t.perUser[u].recvID && t.perUser[u].recvID <= t.lastID }
 
 //@ func (t *Topic) handleNoteBroadcast(msg *ClientComMessage)
-//@   requires [C09] t != nil && msg != nil && msg.Note != nil && msg.sess != nil
+//@   requires [C09] t != nil && msg != nil && msg.Note != nil && msg.sess != nil && rowMax[t.name] <= t.lastID
 //@   requires [C09] inv_marks: forall u types.Uid :: u in t.perUser ==> marksOK(t, u)
 //@   ensures [C09] inv_marks: forall u types.Uid :: u in t.perUser ==> marksOK(t, u)
 //@   ensures [C09] monotone:  forall u types.Uid :: old(u in t.perUser) ==> (u in t.perUser) && t.perUser[u].readID >= old(t.perUser[u].readID) && t.perUser[u].recvID >= old(t.perUser[u].recvID)
@@ -145,7 +169,7 @@ package main
 //@   ensures [C09] deleted_dropped: old(msg.Note.What == "read" || msg.Note.What == "recv" || msg.Note.What == "kp" || msg.Note.What == "kpa" || msg.Note.What == "kpv") && old(t.perUser[types.ParseUserId(msg.AsUser)].deleted) ==> (forall s int :: outCount[s] == old(outCount[s])) && (forall u types.Uid :: t.perUser[u].readID == old(t.perUser[u].readID) && t.perUser[u].recvID == old(t.perUser[u].recvID))
 //@   assert at call Update [C09] recv_persisted: pud.recvID != old(t.perUser[types.ParseUserId(msg.AsUser)].recvID) ==> recv == pud.recvID
 //@   assert at call Update [C09] read_persisted: pud.readID != old(t.perUser[types.ParseUserId(msg.AsUser)].readID) ==> read == pud.readID
-//@   modifies *
+//@   modifies inferred
 
 // What is reported: 0 <= read <= recv <= seq in every description sent out.
 //@ func (t *Topic) replyGetDesc(sess *Session, asUid types.Uid, asChan bool, opts *MsgGetOpts, msg *ClientComMessage) (err error)
@@ -154,7 +178,7 @@ package main
 // finding on handleNoteBroadcast - and a reload copies stored marks into the cache; the report must be sane anyway)
 //@   requires [C09] t.lastID >= 0 && ((asUid in t.perUser) ==> 0 <= t.perUser[asUid].readID && t.perUser[asUid].readID <= t.lastID && 0 <= t.perUser[asUid].recvID && t.perUser[asUid].recvID <= t.lastID)
 //@   assert at call queueOut [C09] reported_marks: $1 != nil && $1.Meta != nil && $1.Meta.Desc != nil ==> 0 <= $1.Meta.Desc.ReadSeqId && $1.Meta.Desc.ReadSeqId <= $1.Meta.Desc.RecvSeqId && $1.Meta.Desc.RecvSeqId <= $1.Meta.Desc.SeqId
-//@   modifies *
+//@   modifies inferred
 
 // ---------------------------------------------------------------------------------------------
 // Detaching: after a user is evicted no (non-multiplexing) session attached to the topic acts for that user -
@@ -169,6 +193,6 @@ package main
 //@ func (t *Topic) evictUser(uid types.Uid, unsub bool, skip string)
 //@   requires [C03] t != nil
 //@   ensures [C03] detached: forall s *Session :: (s in t.sessions) && s != nil && s.multi == nil ==> t.sessions[s].uid != uid
-//@   modifies *
+//@   modifies inferred
 //@   loop 1
 //@     invariant seen_clean: forall s *Session :: #seen[s] && (s in t.sessions) && s != nil && s.multi == nil ==> t.sessions[s].uid != uid
